@@ -35,6 +35,7 @@ def check(ck):
     r15_4(ck)
     r15_5(ck)
     r15_6(ck)
+    r15_7(ck)
 
 
 def r15_1(ck):
@@ -270,6 +271,20 @@ def r15_4(ck):
                '_check_schema raises when an existing value differs from '
                'the new one', '_check_schema no longer raises on a '
                'mismatch')
+    # the units special case re-hashes and accepts only EQUAL units
+    for r in A.walk_no_nested(cs.node):
+        if isinstance(r, ast.Return):
+            g = c2.guards(c2.node(r))
+            if any(a[0] == '==' and "'units'" in ' '.join(map(str, a[1:]))
+                   .replace('"', "'") for a in g):
+                ok = ('==', 'current_schema_value', 'new_schema') in g
+                ck.require(ok, 'R15.4', cs, r,
+                           'differing unit objects are accepted only when '
+                           'they compare equal after re-hashing',
+                           'units that merely differ are accepted under %s: '
+                           'incompatible unit declarations of two processes '
+                           'are merged silently' % sorted(
+                               a for a in g if 'new_schema' in str(a)), r)
     rets = [r for r in A.walk_no_nested(cs.node) if isinstance(r, ast.Return)]
     p = A.params_of(cs.node)[2]
     ck.require(bool(rets) and all(A.is_name(r.value, p) for r in rets),
@@ -356,3 +371,42 @@ def r15_6(ck):
     ok = any(A.call_name(c) == 'get_schema' for c in A.calls_in(f.node))
     ck.require(ok, 'R15.6', f, f.node.name,
                'defaults come from the schema including overrides', None)
+
+
+def r15_7(ck):
+    ck.rule('R15.7', 'declarations of several processes are merged deeply '
+            '(sub-schemas and sub-topologies of glob ports), and asking a '
+            'composite for its initial state does not change the composite '
+            '(shared with C16 R16.5)')
+    for q, attr in (('Store._apply_subschema_config', 'self.subschema'),
+                    ('Store._merge_subtopology', 'self.subtopology')):
+        f = ck.fn(q, 'core.store')
+        ok = False
+        for s2 in A.walk_no_nested(f.node):
+            if isinstance(s2, ast.Assign) and A.unparse(
+                    s2.targets[0]) == attr:
+                v = s2.value
+                ok = isinstance(v, ast.Call) and A.call_name(v) in (
+                    'deep_merge', 'deep_merge_check') and A.unparse(
+                    A.arg_of(v, 0)) == attr and A.is_name(
+                    A.arg_of(v, 1), A.params_of(f.node)[1])
+                ck.require(ok, 'R15.7', f, s2,
+                           '%s is deep-merged with the new declaration'
+                           % attr,
+                           '%s is combined with %s: a later declaration '
+                           'replaces whole nested branches of an earlier '
+                           'one instead of merging into them' % (
+                               attr, A.short(v, 50)), s2)
+        if not ok:
+            ck.require(any(A.call_name(c) == 'deep_merge'
+                           for c in A.calls_in(f.node)), 'R15.7', f,
+                       f.node.name, 'the declaration is deep-merged', None)
+    from . import c16
+    c16.r16_5(ck)
+    for o in ck.obligations:
+        if o['rule'] == 'R16.5':
+            o['rule'] = 'R15.7'
+    for v in ck.violations:
+        if v.rule == 'R16.5':
+            v.rule = 'R15.7'
+    ck.rules.pop('R16.5', None)
